@@ -11,4 +11,6 @@ from .base1 import Hist1Prop
 class HistNProp(Hist1Prop):
     def run_impl(self, case):
         outs, log = implnd.run(case)
+        if self.UNOBSERVED and len(case["ops"]) >= 2 and all(isinstance(o, dict) for o in outs):
+            return {"outs": outs, "log": log, "unobserved_outs": outs[:-1] + [implnd.run_unobserved(case)]}
         return {"outs": outs, "log": log}
